@@ -37,6 +37,7 @@ pub const SUBS: &[SubDef] = &[
     SubDef { prop: "C04", name: "huge", oracle: huge },
     SubDef { prop: "C04", name: "body_direct", oracle: body_direct },
     SubDef { prop: "C04", name: "equality", oracle: equality },
+    SubDef { prop: "C04", name: "clone_from", oracle: clone_from },
 ];
 
 fn run(ctx: &Ctx) {
@@ -44,9 +45,11 @@ fn run(ctx: &Ctx) {
     ctx.run_tape("invalid", invalid, ctx.pick(144_000, 500_000), 500);
     ctx.run_enum("types", types, true, "all 256 handshake type codes x 3 body shapes (empty, 5 bytes, a valid body for that code)", (0..768u32).map(|i| vec![(i / 3) as u8, (i % 3) as u8]));
     ctx.run_tape("large", large, ctx.pick(48, 600), 64);
-    ctx.run_tape("huge", huge, ctx.pick(2, 48), 64);
+    // (the sizes around the crate's other limits and the 24-bit maximum are enumerated; the tape only chooses kind and content)
+    ctx.run_enum("huge", huge, false, "bodies of 2^20-1, 8 MiB + x, 10 MiB - 1, 10 MiB, 10 MiB + 1, 2^24 - 21 bytes (opaque kinds, Certificate, NewSessionTicket, CertificateStatus)", (0..ctx.pick(6, 48) as u8).map(|k| vec![k % 6, k, k.wrapping_mul(37), k.wrapping_mul(91), 3, 5, 8, 13]));
     ctx.run_tape("body_direct", body_direct, ctx.pick(60_000, 300_000), 200);
     ctx.run_tape("equality", equality, ctx.pick(120_000, 500_000), 500);
+    ctx.run_tape("clone_from", clone_from, ctx.pick(60_000, 300_000), 600);
 }
 
 fn ptr_off(base: &[u8], s: &[u8]) -> usize {
@@ -232,9 +235,12 @@ fn large(t: &mut Tape, obs: &mut Obs) -> R {
 
 /// bodies up to the 24-bit limit
 fn huge(t: &mut Tape, obs: &mut Obs) -> R {
-    let n = match t.below(3) {
+    let n = match t.u8() % 6 {
         0 => 0xff_ffff - 20,
         1 => 0x0f_ffff,
+        2 => 0xa0_0000 - 1,
+        3 => 0xa0_0000,
+        4 => 0xa0_0001,
         _ => 0x80_0000 + t.below(0x10_0000),
     };
     big_body(t, n, obs)
@@ -280,12 +286,18 @@ fn equality(t: &mut Tape, obs: &mut Obs) -> R {
     let verdict = guard("parse_tls_message_handshake", || {
         let (ra, rb, ra2) = (parse_tls_message_handshake(&a), parse_tls_message_handshake(&b), parse_tls_message_handshake(&a2));
         match (&ra, &rb, &ra2) {
-            (Ok((_, ma)), Ok((_, mb)), Ok((_, ma2))) => Some((conv::msg(ma) != conv::msg(mb), ma == mb, ma != mb, ma == ma2, ma != ma2, format!("{:?}", ma), format!("{:?}", mb))),
+            (Ok((_, ma)), Ok((_, mb)), Ok((_, ma2))) => {
+                // a clone is the same value: field by field, by `==`, and in its Debug text
+                let c = ma.clone();
+                let clone_ok = conv::msg(&c) == conv::msg(ma) && c == *ma && format!("{:?}", c) == format!("{:?}", ma);
+                Some((conv::msg(ma) != conv::msg(mb), ma == mb, ma != mb, ma == ma2, ma != ma2, format!("{:?}", ma), format!("{:?}", mb), clone_ok))
+            }
             _ => None,
         }
     })?;
-    if let Some((differ, eq, ne, same_eq, same_ne, da, db)) = verdict {
+    if let Some((differ, eq, ne, same_eq, same_ne, da, db, clone_ok)) = verdict {
         let k = h.kind_name();
+        ensure!(clone_ok, format!("C04:equality:{}:clone-differs", k), "{}: the clone of a decoded message differs from the message: {}", k, trunc(&da));
         ensure!(same_eq && !same_ne, format!("C04:equality:{}:same-bytes-unequal", k), "{}: one encoding decoded twice gives values that do not compare equal: {}", k, trunc(&da));
         if differ {
             obs.nontrivial(fnv64(&b));
@@ -294,6 +306,84 @@ fn equality(t: &mut Tape, obs: &mut Obs) -> R {
         }
     }
     Ok(())
+}
+
+/// `target.clone_from(&source)` on the contents struct inside the variant (the enum's own clone_from replaces the whole value and
+/// never reaches the struct's); None when the two messages are of different variants
+fn clone_from_inner<'a>(target: &TlsMessageHandshake<'a>, source: &TlsMessageHandshake<'a>) -> Option<TlsMessageHandshake<'a>> {
+    use TlsMessageHandshake::*;
+    macro_rules! arm {
+        ($v:ident, $t:expr, $s:expr) => {{
+            let mut x = $t.clone();
+            x.clone_from($s);
+            Some($v(x))
+        }};
+    }
+    match (target, source) {
+        (ClientHello(t), ClientHello(s)) => arm!(ClientHello, t, s),
+        (ServerHello(t), ServerHello(s)) => arm!(ServerHello, t, s),
+        (ServerHelloV13Draft18(t), ServerHelloV13Draft18(s)) => arm!(ServerHelloV13Draft18, t, s),
+        (NewSessionTicket(t), NewSessionTicket(s)) => arm!(NewSessionTicket, t, s),
+        (HelloRetryRequest(t), HelloRetryRequest(s)) => arm!(HelloRetryRequest, t, s),
+        (Certificate(t), Certificate(s)) => arm!(Certificate, t, s),
+        (ServerKeyExchange(t), ServerKeyExchange(s)) => arm!(ServerKeyExchange, t, s),
+        (CertificateRequest(t), CertificateRequest(s)) => arm!(CertificateRequest, t, s),
+        (ClientKeyExchange(t), ClientKeyExchange(s)) => arm!(ClientKeyExchange, t, s),
+        (CertificateStatus(t), CertificateStatus(s)) => arm!(CertificateStatus, t, s),
+        (NextProtocol(t), NextProtocol(s)) => arm!(NextProtocol, t, s),
+        _ => None,
+    }
+}
+
+/// copies of decoded values are the values: two independently generated messages of one kind (so that optional fields are present in
+/// one and absent in the other) are decoded, and `a.clone().clone_from(&b)` - on the message, on the handshake enum, on the contents
+/// struct, on an Option and a Vec holding it - must give b, field by field
+fn clone_from(t: &mut Tape, obs: &mut Obs) -> R {
+    let kind = t.pick(&[1usize, 2, 3, 4, 6, 7, 8, 9, 12, 14, 15, 1, 2, 9]);
+    let (ha, hb) = (gen_hs_kind(t, kind, 200), gen_hs_kind(t, kind, 200));
+    let (ba, bb) = (ha.to_bytes(), hb.to_bytes());
+    let r = guard("clone_from on decoded handshake messages", || -> Result<Option<(bool, String)>, String> {
+        let (ma, mb) = match (parse_tls_message_handshake(&ba), parse_tls_message_handshake(&bb)) {
+            (Ok((_, a)), Ok((_, b))) => (a, b),
+            _ => return Ok(None),
+        };
+        let want = conv::msg(&mb);
+        let mut routes: Vec<(&str, MMsg)> = Vec::new();
+        let mut x = ma.clone();
+        x.clone_from(&mb);
+        routes.push(("TlsMessage::clone_from", conv::msg(&x)));
+        if let (TlsMessage::Handshake(a), TlsMessage::Handshake(b)) = (&ma, &mb) {
+            let mut x = a.clone();
+            x.clone_from(b);
+            routes.push(("TlsMessageHandshake::clone_from", MMsg::Hs(conv::hs(&x))));
+            if let Some(x) = clone_from_inner(a, b) {
+                routes.push(("clone_from of the contents struct", MMsg::Hs(conv::hs(&x))));
+            }
+            let mut o = Some(a.clone());
+            o.clone_from(&Some(b.clone()));
+            routes.push(("Option::clone_from", MMsg::Hs(conv::hs(o.as_ref().unwrap()))));
+            let mut v = vec![a.clone(), a.clone()];
+            v.clone_from(&vec![b.clone()]);
+            routes.push(("Vec::clone_from", MMsg::Hs(conv::hs(&v[0]))));
+        }
+        for (name, got) in routes {
+            if got != want {
+                return Err(format!("{}: target {:?}, source {:?}, result {:?}", name, conv::msg(&ma), want, got));
+            }
+        }
+        Ok(Some((conv::msg(&ma) != want, format!("{:?}", want))))
+    })?;
+    match r {
+        Err(e) => fail(format!("C04:clone-from:{}", ha.kind_name()), format!("a copy made with clone_from differs from its source: {}", trunc(&e))),
+        Ok(Some((differ, _))) => {
+            if differ {
+                obs.nontrivial(fnv64(&ba) ^ fnv64(&bb));
+            }
+            obs.sample_class(ha.kind_name(), || json!({"kind": ha.kind_name(), "target": trunc(&format!("{:?}", ha)), "source": trunc(&format!("{:?}", hb))}));
+            Ok(())
+        }
+        Ok(None) => Ok(()),
+    }
 }
 
 fn expect_rejected(what: &str, msg: &[u8], tail: &[u8], obs: &mut Obs) -> R {
